@@ -8,3 +8,17 @@ package signxap
 //@   property C11 C08
 //@   nopanic
 //@   ensures @only_a_trailing_signature_block_is_cut samearr(ret0, cd) && len(ret0) <= len(cd)
+
+//@ func Verify
+//@   property C02
+//@   ghost psdG *pkcs7.ContentInfoSignedData = nil
+//@   ghost cmsOK bool = false
+//@   ghost digestOK bool = false
+//@   ghost hashed bool = false
+//@   on call pkcs7.Unmarshal(b) ret (p, e): psdG = p
+//@   on call (*pkcs7.SignedData).Verify(sd, ext, skip) ret (s, e): cmsOK = (e == nil && sd == addr(psdG.Content) && ext == nil && !skip)
+//@   before call io.Copy(w, src): assert @digest_covers_the_archive_in_front_of_the_signature_block w == iface(d)
+//@   on call io.Copy(_, _) ret (n, e): hashed = (e == nil)
+//@   on call crypto/hmac.Equal(a, b) ret (r): digestOK = (r && hashed && sameslice(a, calc) && sameslice(b, indirect.MessageDigest.Digest))
+//@   ensures @cms_signature_verified ret1 == nil ==> cmsOK
+//@   ensures @content_digest_recomputed_and_compared ret1 == nil && !skipDigests ==> digestOK
